@@ -380,6 +380,12 @@ def checkout(  # noqa: PLR0913
     # if protocol(path) not in ["local", cache.fs.protocol]:
     #    raise NotImplementedError
 
+    if isinstance(fs, LocalFileSystem):
+        # NOTE: the saved link record is a token over the file paths as they
+        # are spelled here, in the diff and by the later walk of the
+        # workspace, so spell the workspace path one way
+        path = os.path.normpath(path)
+
     diff = _diff(
         path,
         fs,
